@@ -635,6 +635,31 @@ class _NP:
         nfn, fwd = a.storage.nan, a.fwd
         return new_array(a.shape, lambda idx: nfn(fwd(idx)), "b")
 
+    def nan_to_num(self, x, copy=True, nan=0.0, **kw):
+        """NaN -> `nan` (0 by default); writes through to its argument when copy=False."""
+        _use("nan_to_num")
+        if kw:
+            raise Unsupported("nan_to_num(posinf/neginf)")
+        if not _arrish(x):
+            return _as_scalar(x)
+        a = as_array(x)
+        snap = a.snapshot()
+        if a.storage.nan is None:
+            isn = lambda idx: False
+        else:
+            nfn, fwd = a.storage.nan, a.fwd
+            isn = lambda idx: nfn(fwd(idx))
+        fill = lambda idx: ite(isn(idx), nan, snap(*idx))
+        if copy:
+            return new_array(a.shape, fill, a.kind)
+        a._log_write("nan_to_num")
+        vals = new_array(a.shape, fill, a.kind)
+        a._assign(lambda vidx: True, lambda vidx: vals.at(*vidx))
+        if a.storage.nan is not None:
+            old_nan, inv = a.storage.nan, a.inv
+            a.storage.nan = lambda sidx: and_(old_nan(sidx), not_(inv(sidx)[0]))
+        return a
+
     def where(self, cond, x=None, y=None):
         _use("where")
         if x is None and y is None:
@@ -652,9 +677,17 @@ class _NP:
 
     # ---- reductions
     def min(self, a, axis=None):
+        from .prelude_groupby import GroupSeries
+
+        if isinstance(a, GroupSeries):
+            return a._agg("min")
         return _minmax("min", a, True, axis)
 
     def max(self, a, axis=None):
+        from .prelude_groupby import GroupSeries
+
+        if isinstance(a, GroupSeries):
+            return a._agg("max")
         return _minmax("max", a, False, axis)
 
     amin = min
@@ -691,13 +724,20 @@ class _NP:
 
     def sum(self, a, axis=None):
         from .sums import array_sum
+        from .prelude_groupby import GroupSeries
+
+        if isinstance(a, GroupSeries):
+            return a._agg("sum")
 
         _use("sum")
         return array_sum(as_array(a), axis)
 
     def mean(self, a, axis=None):
         from .sums import array_mean
+        from .prelude_groupby import GroupSeries, group_reduce
 
+        if isinstance(a, GroupSeries):
+            return group_reduce("mean", a)
         _use("mean")
         if isinstance(a, (list, tuple)) and all(not _arrish(v) for v in a):
             vals = [_as_scalar(v) for v in a]
@@ -707,17 +747,43 @@ class _NP:
             return div(tot, len(vals))
         return array_mean(as_array(a), axis)
 
+    def unique(self, a, **kw):
+        from .prelude_groupby import np_unique
+
+        if kw:
+            raise Unsupported("np.unique with options")
+        return np_unique(as_array(a))
+
+    def average(self, a, axis=None, weights=None):
+        from .prelude_groupby import GroupSeries, group_reduce
+
+        if isinstance(a, GroupSeries):
+            return group_reduce("average", a, weights=weights)
+        raise Unsupported("np.average of an array")
+
     def median(self, a, axis=None):
         from .sums import array_median
+        from .prelude_groupby import GroupSeries
+
+        if isinstance(a, GroupSeries):
+            return a._agg("median")
 
         _use("median")
         return array_median(as_array(a), axis)
 
-    def var(self, a, axis=None):
-        raise Unsupported("np.var")
+    def var(self, a, axis=None, ddof=0):
+        from .prelude_groupby import GroupSeries
 
-    def std(self, a, axis=None):
-        raise Unsupported("np.std")
+        if isinstance(a, GroupSeries):
+            return a._agg("var_ddof%d" % ddof)
+        raise Unsupported("np.var of an array")
+
+    def std(self, a, axis=None, ddof=0):
+        from .prelude_groupby import GroupSeries
+
+        if isinstance(a, GroupSeries):
+            return a._agg("std_ddof%d" % ddof)
+        raise Unsupported("np.std of an array")
 
     def unravel_index(self, indices, shape):
         _use("unravel_index")
